@@ -424,6 +424,7 @@ def dictform_clauses(ctx, model, case):
     ctx.hit("dictform:todict")
     if canon_answer(ans["dict"]) != real_jv:
         ctx.disagree("C08.dictform.writer", c, first_diff(real_jv, canon_answer(ans["dict"])), "model.dict() differs from the modelled dictionary")
+    pickle_clause(ctx, model, pn, c)
     try:
         r = af.AbstractPriorModel.from_dict(json.loads(text))
         rep = report_of(r)
@@ -451,6 +452,103 @@ def dictform_clauses(ctx, model, case):
         else:
             if canon_answer(got["redict"]) != want["redict"]:
                 ctx.disagree(f"C08.dictform.{who}.redict", c, first_diff(want["redict"], canon_answer(got["redict"])), "dictionary of the reloaded model differs")
+    assertion_clause(ctx, r, text, c)
+
+
+def all_prior_objects(o, out=None, seen=None, depth=0):
+    """every Prior object reachable from `o` (private attributes and assertions included), by id"""
+    from autofit.mapper.prior.abstract import Prior
+
+    out = {} if out is None else out
+    seen = set() if seen is None else seen
+    if id(o) in seen or depth > 12:
+        return out
+    seen.add(id(o))
+    if isinstance(o, Prior):
+        out.setdefault(o.id, o)
+        return out
+    if isinstance(o, (list, tuple)):
+        for v in o:
+            all_prior_objects(v, out, seen, depth + 1)
+    elif isinstance(o, dict):
+        for v in o.values():
+            all_prior_objects(v, out, seen, depth + 1)
+    elif hasattr(o, "__dict__") and not isinstance(o, type):
+        for k, v in vars(o).items():
+            if k != "_frozen_cache":
+                all_prior_objects(v, out, seen, depth + 1)
+    return out
+
+
+def real_verdicts(r, arguments):
+    """the verdict of every assertion of the real model: a component's own assertions, then its attributes'"""
+    out = []
+
+    def visit(m):
+        for a in list(getattr(m, "_assertions", None) or []):
+            try:
+                out.append(bool(a.instance_for_arguments(arguments)))
+            except Exception as e:
+                out.append("err:" + type(e).__name__)
+        for _, v in _dict_items(m):
+            if isinstance(v, (af.Collection, af.Model)):
+                visit(v)
+
+    visit(r)
+    return out
+
+
+def assertion_clause(ctx, r, text, c):
+    """Lean: `fromDV` on the REAL dictionary, then `assertVerdicts` for values given per identity; real: the
+    reloaded model's own assertion objects evaluated on the same values"""
+    priors = all_prior_objects(r)
+    ids = sorted(_prior_ids(r.dict(), set()))
+    if not ids or any(i not in priors for i in ids):
+        ctx.hit("dictform-asserts-skipped")
+        return
+    for _ in range(2):
+        vals = []
+        for i in ids:
+            lo, hi = max(float(priors[i].lower_limit), -50.0), min(float(priors[i].upper_limit), 50.0)
+            if lo > hi:
+                lo, hi = hi, lo
+            vals.append(ctx.rng.uniform(lo, hi))
+        want = real_verdicts(r, {priors[i]: v for i, v in zip(ids, vals)})
+        if not want:
+            return
+        ans = ctx.lean.ask({"p": "C08", "q": "asserts", "dict": jv_of(json.loads(text)), "vals": [f2h(v) for v in vals],
+                            "defaults": class_defaults()})
+        if "driver_error" in ans:
+            ctx.disagree("driver", c, None, ans)
+            return
+        ctx.hit("dictform:asserts")
+        got = ans["verdicts"]
+        if len(got) != len(want) or any(w != g for w, g in zip(want, got) if not isinstance(w, str)):
+            ctx.disagree("C08.dictform.assert-verdicts", c, want, got)
+            return
+
+
+def pickle_clause(ctx, model, pn, c):
+    """the stated assumption about pickle (same attribute tree, ids verbatim) checked on the real object, and what
+    the model derives from it (paths in parameter order, ids, dictionary) compared with the real reloaded model"""
+    try:
+        rp = pickle.loads(pickle.dumps(model))
+        pn2 = pn_of(rp)
+        real = jv_of(rp.dict())
+    except Unsupported:
+        return
+    if pn2 != pn:
+        ctx.disagree("C08.pickle.assumption", c, first_diff(pn, pn2), "pickle did not restore the same attribute tree with the same ids")
+    ans = ctx.lean.ask({"p": "C08", "q": "pickle", "pn": pn})
+    if "driver_error" in ans:
+        ctx.disagree("driver", c, None, ans)
+        return
+    ctx.hit("dictform:pickle")
+    pp = rp.path_priors_tuples
+    if ans["paths"] != [list(map(str, p)) for p, _ in pp] or ans["ids"] != [int(pr.id) for _, pr in pp]:
+        ctx.disagree("C08.pickle.order", c, [list(map(str, p)) for p, _ in pp][:8], ans["paths"][:8])
+    elif canon_answer(ans["dict"]) != real:
+        ctx.disagree("C08.pickle.dict", c, first_diff(real, canon_answer(ans["dict"])), "dictionary of the unpickled model differs")
 
 
 def one_case(ctx, prog, label="gen"):
